@@ -574,6 +574,12 @@ def gen_startup():
     out += "Definition elapsed_saturates : bool := %s.\n" % B(saturates)
     out += "Definition close_needs_both_directions_idle : bool := %s.\n" % B(both)
     out += "Definition ticker_period_s : N := %d%%N.\n" % (int(tick.group(1)) if tick else 0)
+    sit = re.sub(r"\s+", "", fn_body(ctx, "set_idle_timeout"))
+    out += "Definition set_idle_timeout_assigns_unconditionally : bool := %s.\n" % B(sit == "{Arc::make_mut(&mutself.props).idle_timeout=timeout;self}")
+    udp_sites = 0
+    for path in ("src/listeners/socks.rs", "src/listeners/reverse.rs", "src/listeners/tproxy.rs"):
+        udp_sites += len(re.findall(r"set_idle_timeout\s*\(\s*state\s*\.\s*timeouts\s*\.\s*udp\s*\)", strip_rust(open(os.path.join(REPO, path)).read())))
+    out += "Definition udp_sessions_take_the_udp_timeout : N := %d%%N.\n" % udp_sites
     return out
 
 
